@@ -9,6 +9,9 @@ the other opacity mode, after another directory of tables was selected -- and ev
   * is paired with its cross-section twin (the same numbers served as cross-sections): `observe` returns both
     and logs one `twin` event per evaluation, validated by TLC (equality for degenerate tables; unit interval and
     Jensen bound against the weight-averaged coefficient for generic tables in transmission).
+Every evaluation happens under an EVALUATION CONFIGURATION (class Cfg: temperature-interpolation scheme, the route
+through which it reaches the table objects of both kinds, further global keys), applied identically to both twins;
+scenarios with a 'config' setting change it between evaluations, on tables of every container (pickle, HDF5).
 Every object OWNS the table / cross-section objects it has loaded: they are put into the cache singletons through
 their public API (clear_cache / add_opacity) for the object's own evaluations only, so that building the fresh
 reference never resets what the long-lived object carries.
@@ -100,12 +103,42 @@ def coefficients(native, seed, npress=4, ntemp=4):
     return press, temps, x
 
 
-class TableSet:
-    """<root>/set<idx>/k: pickle k-tables, <root>/set<idx>/x: the twin numbers as pickle cross-sections
-    (degenerate: the common value; generic: the weight-averaged coefficient)."""
+def write_hdf5_ktable(path, name, wn, temps, press_pa, kcoeff_cm2, weights):
+    """HDF5KTable layout: kcoeff[P, T, wn, g] in cm^2, pressures with a unit attribute; the molecule is the file stem
+    up to the first underscore."""
+    import h5py
+    fn = os.path.join(path, '%s_R100.h5' % name)
+    with h5py.File(fn, 'w') as f:
+        f['bin_centers'] = np.asarray(wn, dtype=float)
+        f['ngauss'] = len(weights)
+        f['t'] = np.asarray(temps, dtype=float)
+        f.create_dataset('p', data=np.asarray(press_pa, dtype=float) / 1e5).attrs['units'] = 'bar'
+        f['kcoeff'] = np.asarray(kcoeff_cm2, dtype=float)
+        f['weights'] = np.asarray(weights, dtype=float)
+    return fn
 
-    def __init__(self, root, idx, grids, weights, spread):
+
+def write_hdf5_xsec(path, name, wn, temps, press_pa, xsec_cm2):
+    """HDF5Opacity layout: xsecarr[P, T, wn] in cm^2."""
+    import h5py
+    fn = os.path.join(path, '%s.h5' % name)
+    with h5py.File(fn, 'w') as f:
+        f['bin_edges'] = np.asarray(wn, dtype=float)
+        f['t'] = np.asarray(temps, dtype=float)
+        f.create_dataset('p', data=np.asarray(press_pa, dtype=float) / 1e5).attrs['units'] = 'bar'
+        f['xsecarr'] = np.asarray(xsec_cm2, dtype=float)
+        f['mol_name'] = name
+    return fn
+
+
+class TableSet:
+    """<root>/set<idx>/k: k-tables, <root>/set<idx>/x: the twin numbers as cross-sections (degenerate: the common
+    value; generic: the weight-averaged coefficient); container 'pickle' (PickleKTable / PickleOpacity files) or
+    'hdf5' (HDF5KTable / HDF5Opacity files)."""
+
+    def __init__(self, root, idx, grids, weights, spread, container='pickle'):
         self.idx = idx
+        self.container = container
         self.kdir = os.path.join(root, 'set%d' % idx, 'k')
         self.xdir = os.path.join(root, 'set%d' % idx, 'x')
         os.makedirs(self.kdir)
@@ -116,6 +149,7 @@ class TableSet:
         self.ng = len(weights)
         self.degenerate = spread == 0
         self.grids = {m: np.array(g, dtype=float) for m, g in grids.items()}
+        self.kfile, self.xfile = {}, {}
         for j, (mol, native) in enumerate(sorted(self.grids.items())):
             press, temps, x = coefficients(native, 3 * idx + j)
             k = np.repeat(x[..., None], self.ng, axis=-1)
@@ -124,22 +158,125 @@ class TableSet:
                 xs = np.tensordot(k, self.weights, axes=([3], [0]))
             else:
                 xs = x
-            fx.write_pickle_ktable(self.kdir, mol, native, temps, press, k, self.weights)
-            with open(os.path.join(self.xdir, '%s.R100.pickle' % mol), 'wb') as f:
-                pickle.dump(dict(t=temps, p=press / 1e5, name=mol, wno=np.array(native), xsecarr=xs), f)
+            if container == 'hdf5':
+                self.kfile[mol] = write_hdf5_ktable(self.kdir, mol, native, temps, press, k, self.weights)
+                self.xfile[mol] = write_hdf5_xsec(self.xdir, mol, native, temps, press, xs)
+            else:
+                self.kfile[mol] = fx.write_pickle_ktable(self.kdir, mol, native, temps, press, k, self.weights)
+                self.xfile[mol] = os.path.join(self.xdir, '%s.R100.pickle' % mol)
+                with open(self.xfile[mol], 'wb') as f:
+                    pickle.dump(dict(t=temps, p=press / 1e5, name=mol, wno=np.array(native), xsecarr=xs), f)
+            self.tnodes, self.pnodes = np.array(temps, dtype=float), np.array(press, dtype=float)
         self.tmin, self.tmax = 300.0, 2400.0
 
     def __repr__(self):
-        return 'set%d(ng=%d,%s)' % (self.idx, self.ng, 'degenerate' if self.degenerate else 'generic')
+        return 'set%d(ng=%d,%s%s)' % (self.idx, self.ng, 'degenerate' if self.degenerate else 'generic',
+                                      '' if self.container == 'pickle' else ',' + self.container)
 
 
-def use_paths(ts, mode):
-    """the global settings a user changes: paths of both kinds of tables and the opacity mode (no cache is emptied)"""
+# ----------------------------------------------------------------------------
+# the evaluation configuration (spec/KTableHistory.tla: interp, route, extra)
+# ----------------------------------------------------------------------------
+
+INTERPS = ('linear', 'exp')
+ROUTES = ('global', 'api', 'ctor', 'setter')
+EXTRAS = ('none', 'stream', 'deactive')
+EXTRA_KEYS = ('xsec_interpolation', 'xsec_in_memory', 'deactive_molecules')
+
+
+class Cfg:
+    """interp: the temperature-interpolation scheme; route: how it reaches the table objects of both kinds
+    ('global': the GlobalCache key read at discovery, 'api': OpacityCache.set_interpolation, 'ctor': constructor
+    argument, objects handed to the caches, 'setter': set_interpolation_mode on the objects already loaded);
+    extra: 'stream' (memory mode off), 'deactive' (the second molecule de-activated)."""
+
+    def __init__(self, interp='linear', route='global', extra='none'):
+        if interp not in INTERPS or route not in ROUTES or extra not in EXTRAS:
+            raise Machinery('not a configuration of KTableHistory: %r' % ((interp, route, extra),))
+        self.interp, self.route, self.extra = interp, route, extra
+
+    def __repr__(self):
+        return '%s/%s%s' % (self.interp, self.route, '' if self.extra == 'none' else '/' + self.extra)
+
+    def triple(self):
+        return [self.interp, self.route, self.extra]
+
+
+BASE = Cfg()
+
+
+def use_paths(ts, mode, c=BASE):
+    """the global settings a user changes: paths of both kinds of tables, the opacity mode and the keys of the
+    evaluation configuration (no cache is emptied)"""
     from taurex.cache import GlobalCache
     gc = GlobalCache()
     gc['ktable_path'] = ts.kdir
     gc['xsec_path'] = ts.xdir
     gc['opacity_method'] = mode
+    for key in EXTRA_KEYS:
+        gc.variable_dict.pop(key, None)
+    if c.route in ('global', 'api'):
+        gc['xsec_interpolation'] = c.interp
+    if c.extra == 'stream':
+        gc['xsec_in_memory'] = False
+    if c.extra == 'deactive' and len(ts.grids) > 1:
+        gc['deactive_molecules'] = sorted(ts.grids)[1:]
+
+
+def clear_config():
+    from taurex.cache import GlobalCache
+    for key in EXTRA_KEYS:
+        GlobalCache().variable_dict.pop(key, None)
+
+
+def establish(ts, c, ktabs=None, xops=None):
+    """Configuration c is established through its route for the tables of both kinds of `ts`; returns the loaded
+    objects (ktabs, xops).  Route 'setter' keeps the objects already loaded and changes them in place; every other
+    route loads the files again, from ktable_path / xsec_path through the caches ('ctor': constructed with the
+    scheme as argument and handed to the caches)."""
+    from taurex.cache import OpacityCache
+    from taurex.cache.ktablecache import KTableCache
+    kc, oc = KTableCache(), OpacityCache()
+    use_paths(ts, 'ktables', c)
+    mols = sorted(ts.grids)
+    if c.extra == 'deactive':
+        mols = mols[:1]
+    if c.route == 'setter':
+        install(ktabs or {}, xops or {})
+        for mol in mols:
+            kc[mol], oc[mol]
+        for o in list(kc.opacity_dict.values()) + list(oc.opacity_dict.values()):
+            o.set_interpolation_mode(c.interp)
+    elif c.route == 'ctor':
+        install({}, {})
+        if ts.container == 'hdf5':
+            from taurex.opacity.ktables import HDF5KTable
+            from taurex.opacity import HDF5Opacity
+            mem = c.extra != 'stream'
+            for mol in mols:
+                kc.add_opacity(HDF5KTable(ts.kfile[mol], c.interp, mem))
+                oc.add_opacity(HDF5Opacity(ts.xfile[mol], c.interp, mem))
+        else:
+            from taurex.opacity.ktables import PickleKTable
+            from taurex.opacity import PickleOpacity
+            for mol in mols:
+                kc.add_opacity(PickleKTable(ts.kfile[mol], c.interp))
+                oc.add_opacity(PickleOpacity(ts.xfile[mol], c.interp))
+    else:
+        install({}, {})
+        if c.route == 'api':
+            oc.set_interpolation(c.interp)          # the documented call (empties the cross-section cache)
+            if c.extra == 'stream':
+                oc.set_memory_mode(False)
+            kc.clear_cache()
+        for mol in mols:
+            kc[mol], oc[mol]
+    out = dict(kc.opacity_dict), dict(oc.opacity_dict)
+    for mol in mols:
+        if mol not in out[0] or mol not in out[1]:
+            raise Machinery('%r: tables of %s not loaded under %r' % (ts, mol, c))
+    install({}, {})
+    return out
 
 
 def install(ktabs, xops):
@@ -213,38 +350,55 @@ class Holder:
 # object level: KTable.opacity(T, P, wngrid) on one loaded table object
 # ----------------------------------------------------------------------------
 
-class TableScenario(history.Scenario):
-    """settings: requested grid, temperature, pressure (arguments of KTable.opacity / Opacity.opacity)"""
+def table_twin_event(ts, k, x, nreq, c):
+    """one `twin` event (rel = "equal") for the results of KTable.opacity / Opacity.opacity on a degenerate table"""
+    k, x = np.asarray(k, dtype=float), np.asarray(x, dtype=float)
+    ok_shape = k.ndim == 2 and x.ndim == 1 and k.shape[0] == x.shape[0]
+    dev = max(reldev(k[:, g], x) for g in range(k.shape[1])) if ok_shape else CAP
+    return dict(rel='equal', nk=int(k.shape[0]), nx=int(x.shape[0]), nreq=nreq, gdev=0,
+                ng=int(k.shape[1]) if k.ndim == 2 else 0, ngw=ts.ng, dev=dev, slack=0, lo=0, tmin=0, tmax=0, S=S_T,
+                ck=c.triple(), cx=c.triple())
 
-    def __init__(self, name, log, ts, mol, windows, temps, press):
+
+class TableScenario(history.Scenario):
+    """settings (3) among: 'window' (requested grid), 'T', 'P' (arguments of KTable.opacity / Opacity.opacity) and
+    'config' (the evaluation configuration, established through its route for both objects)"""
+
+    def __init__(self, name, log, ts, mol, windows, temps, press, configs=None, vary=('window', 'T', 'P')):
         self.name, self.log, self.ts, self.mol = name, log, ts, mol
-        self.dims = [list(windows), list(temps), list(press)]
+        vals = dict(window=list(windows), T=list(temps), P=list(press), config=list(configs or [BASE]))
+        self.settings = list(vary)
+        self.dims = [vals[k] for k in self.settings]
+        self.defaults = {k: v[0] for k, v in vals.items()}
         self.evals = 0
 
+    def _cfg(self, values):
+        c = dict(self.defaults)
+        c.update(dict(zip(self.settings, values)))
+        return c
+
     def fresh(self, values):
-        from taurex.cache import OpacityCache
-        from taurex.cache.ktablecache import KTableCache
         h = Holder(values)
-        h.cfg = list(values)
-        use_paths(self.ts, 'ktables')
-        install({}, {})
-        h.kt = KTableCache()[self.mol]          # loaded from ktable_path by the cache, as a model does
-        h.xo = OpacityCache()[self.mol]
-        install({}, {})
+        h.cfg = self._cfg(values)
+        h.ktabs, h.xops = establish(self.ts, h.cfg['config'])      # loaded from ktable_path / xsec_path by the caches
         return h
 
     def set(self, h, d, value, values):
-        h.cfg[d] = value
+        s = self.settings[d]
+        h.cfg[s] = value
         h.trail.append('set%d=%r' % (d, value))
+        if s == 'config':
+            h.ktabs, h.xops = establish(self.ts, value, h.ktabs, h.xops)
 
     def observe(self, h):
-        win, T, P = h.cfg
+        win, T, P, c = h.cfg['window'], h.cfg['T'], h.cfg['P'], h.cfg['config']
         h.trail.append('eval')
         vec = h.vector(self.name)
-        cls = '%s:%r:%s' % (self.name, self.ts, win.label)
+        cls = '%s:%r:%s' % (self.name, self.ts, win.label) + ('' if 'config' not in self.settings else ':%r' % c)
+        use_paths(self.ts, 'ktables', c)
         try:
-            k = h.kt.opacity(T, P, None if win.grid is None else np.array(win.grid))
-            x = h.xo.opacity(T, P, None if win.grid is None else np.array(win.grid))
+            k = h.ktabs[self.mol].opacity(T, P, None if win.grid is None else np.array(win.grid))
+            x = h.xops[self.mol].opacity(T, P, None if win.grid is None else np.array(win.grid))
         except Exception as ex:
             self.log.code_raised(ex, cls, vec)
             raise
@@ -252,11 +406,8 @@ class TableScenario(history.Scenario):
         self.evals += 1
         nreq = len(self.ts.grids[self.mol]) if win.grid is None else len(win.grid)
         if self.ts.degenerate:
-            ok_shape = k.ndim == 2 and x.ndim == 1 and k.shape[0] == x.shape[0]
-            dev = max(reldev(k[:, g], x) for g in range(k.shape[1])) if ok_shape else CAP
-            self.log.add(dict(rel='equal', nk=int(k.shape[0]), nx=int(x.shape[0]), nreq=nreq, gdev=0,
-                              ng=int(k.shape[1]) if k.ndim == 2 else 0, ngw=self.ts.ng, dev=dev, slack=0, lo=0, tmin=0, tmax=0, S=S_T),
-                         cls, 'T=%g P=%g: k-table %r vs cross-section %r' % (T, P, k[:3].tolist(), x[:3].tolist()), vec)
+            self.log.add(table_twin_event(self.ts, k, x, nreq, c),
+                         cls, 'T=%g P=%g under %r: k-table %r vs cross-section %r' % (T, P, c, k[:3].tolist(), x[:3].tolist()), vec)
         return dict(k=k, x=x)
 
 
@@ -270,7 +421,9 @@ OTHER = {'ktables': 'xsec', 'xsec': 'ktables'}
 class ModelScenario(history.Scenario):
     """settings (<= 3) among: 'window' (grid passed to model(wngrid=..)), 'mode' (the global opacity_method under
     which the primary long-lived model is evaluated; its long-lived twin is evaluated under the other one),
-    'T' (temperature-profile parameter), 'mix' (mixing ratio of the first molecule), 'mix2', 'kset'."""
+    'T' (temperature-profile parameter), 'mix' (mixing ratio of the first molecule), 'mix2', 'kset' (directory of
+    tables, of either container), 'config' (the evaluation configuration, established through its route for the
+    tables of both kinds: both twins are evaluated under it)."""
     NLAYERS = 6
 
     def __init__(self, name, log, kind, settings, values, defaults):
@@ -293,7 +446,7 @@ class ModelScenario(history.Scenario):
         from taurex.contributions import AbsorptionContribution
         from taurex.planet import Planet
         from taurex.stellar import BlackbodyStar
-        use_paths(c['kset'], mode)
+        use_paths(c['kset'], mode, c.get('config', BASE))
         chem = TaurexChemistry(fill_gases=['H2', 'He'], ratio=0.17)
         mols = sorted(c['kset'].grids)
         chem.addGas(ConstantGas(mols[0], c['mix']))
@@ -322,6 +475,8 @@ class ModelScenario(history.Scenario):
         install({}, {})
         h.m = self._build(c, c['mode'])                # primary: constructed under the mode it is first used in
         h.t = self._build(c, OTHER[c['mode']])         # twin: the other mode
+        if 'config' in self.settings:
+            h.ktabs, h.xops = establish(c['kset'], c['config'])
         return h
 
     def set(self, h, d, value, values):
@@ -339,61 +494,76 @@ class ModelScenario(history.Scenario):
                 m[sorted(h.cfg['kset'].grids)[1]] = value
         elif s == 'kset':          # another directory of tables: the user points the paths there and empties the caches
             h.ktabs, h.xops = {}, {}
+            if 'config' in self.settings:
+                h.ktabs, h.xops = establish(value, h.cfg['config'])
+        elif s == 'config':        # the configuration is established through its route (tables loaded again, or set in place)
+            h.ktabs, h.xops = establish(h.cfg['kset'], value, h.ktabs, h.xops)
         # 'window' is an argument of model(); 'mode' is the global setting, applied at the evaluation
 
     def observe(self, h):
         c = h.cfg
-        ts, win = c['kset'], c['window']
+        ts, win, conf = c['kset'], c['window'], c.get('config', BASE)
         h.trail.append('eval')
         vec = h.vector(self.name)
-        cls = '%s:%r:%s' % (self.name, ts, win.label)
+        cls = '%s:%r:%s' % (self.name, ts, win.label) + ('' if 'config' not in self.settings else ':%r' % conf)
         km, xm = (h.m, h.t) if c['mode'] == 'ktables' else (h.t, h.m)
         kc, oc = install(h.ktabs, h.xops)
         grid = None if win.grid is None else np.array(win.grid)
         try:
             try:
-                use_paths(ts, 'ktables')
-                gk, yk, tk, _ = km.model(wngrid=grid)
-                use_paths(ts, 'xsec')
-                gx, yx, tx, _ = xm.model(wngrid=grid)
+                use_paths(ts, 'ktables', conf)
+                rk = km.model(wngrid=grid)
+                use_paths(ts, 'xsec', conf)
+                rx = xm.model(wngrid=grid)
             finally:
                 h.ktabs, h.xops = dict(kc.opacity_dict), dict(oc.opacity_dict)
                 install({}, {})
         except Exception as ex:
             self.log.code_raised(ex, cls, vec)
             raise
-        gk, yk, tk = np.array(gk, dtype=float), np.array(yk, dtype=float), np.array(tk, dtype=float)
-        gx, yx, tx = np.array(gx, dtype=float), np.array(yx, dtype=float), np.array(tx, dtype=float)
         self.evals += 1
-        self.clip.setdefault(ts.idx, {})[win.label] = len(gk)
-        ev = dict(nk=len(gk), nx=len(gx), nreq=0, gdev=absdev(gk, gx) if gk.shape == gx.shape else CAP,
-                  ng=ts.ng, ngw=int(len(np.atleast_1d(h.ktabs[sorted(ts.grids)[0]].weights))),
-                  dev=0, slack=0, lo=0, tmin=0, tmax=0, S=S_T)
-        ev['gdev'] = min(CAP, int(math.ceil(ev['gdev'] / 1e3)))          # units of 1e-9 cm-1
-        detail = 'mode of the primary model %s; k-table %r vs cross-section %r' % (c['mode'], yk[:3].tolist(), yx[:3].tolist())
-        if ts.degenerate:
-            ev['rel'] = 'equal'
-            if self.kind == 'transmission':
-                ev['dev'] = max(reldev(yk, yx), absdev(tk, tx))
-            else:
-                ev['dev'] = reldev(yk, yx)
-                # licensed: the cross-section emission branch zeroes transmittances once the optical depth is >= 10 at
-                # EVERY wavenumber of the evaluated grid; the k-table branch does not
-                col = np.sum(np.asarray(xm.contribution_list[0].sigma_xsec) *
-                             (np.asarray(xm.densityProfile) * np.asarray(xm.deltaz))[:, None], axis=0)
-                if col.min() >= 10.0 - 1e-6:
-                    tt = np.asarray(xm.temperatureProfile, dtype=float)
-                    ratio = max(fx.planck_b(w, tt.max()) / fx.planck_b(w, tt.min()) for w in gx)
-                    ev['slack'] = int(min(CAP, math.ceil(self.NLAYERS * EXP_M10 * ratio * 1e12)))
-                    self.log.licensed += 1
-            self.log.add(ev, cls, detail, vec)
-        elif self.kind == 'transmission' and tk.shape == tx.shape and tk.size:
-            ev['rel'] = 'jensen'
-            ev['lo'] = int(max(-CAP, min(CAP, math.floor(float(np.min(tk - tx)) * S_T))))
-            ev['tmin'] = int(max(-CAP, min(CAP, math.floor(float(tk.min()) * S_T))))
-            ev['tmax'] = int(max(-CAP, min(CAP, math.ceil(float(tk.max()) * S_T))))
-            self.log.add(ev, cls, detail + '; min(Tk - Tx) = %r' % float(np.min(tk - tx)), vec)
-        return dict(grid_k=gk, k=yk, tau_k=tk, grid_x=gx, x=yx, tau_x=tx)
+        detail = 'mode of the primary model %s, configuration %r' % (c['mode'], conf)
+        out = model_twin(self.log, self.kind, self.NLAYERS, ts, h.ktabs, rk, rx, xm, conf, cls, detail, vec)
+        self.clip.setdefault(ts.idx, {})[win.label] = len(out['grid_k'])
+        return out
+
+
+def model_twin(log, kind, nlayers, ts, ktabs, rk, rx, xm, conf, cls, detail, vec, clause=None):
+    """One evaluation of a k-table model (rk) and of its cross-section twin (rx = the results of model(); xm: the
+    cross-section model) under configuration `conf`: logs the `twin` event (equality for a degenerate table, unit
+    interval and Jensen bound for a generic table in transmission) and returns what was observed."""
+    gk, yk, tk = (np.array(v, dtype=float) for v in rk[:3])
+    gx, yx, tx = (np.array(v, dtype=float) for v in rx[:3])
+    ev = dict(nk=len(gk), nx=len(gx), nreq=0, gdev=absdev(gk, gx) if gk.shape == gx.shape else CAP,
+              ng=ts.ng, ngw=int(len(np.atleast_1d(ktabs[sorted(ts.grids)[0]].weights))),
+              dev=0, slack=0, lo=0, tmin=0, tmax=0, S=S_T, ck=conf.triple(), cx=conf.triple())
+    if clause:
+        ev['_clause'] = clause
+    ev['gdev'] = min(CAP, int(math.ceil(ev['gdev'] / 1e3)))          # units of 1e-9 cm-1
+    detail += '; k-table %r vs cross-section %r' % (yk[:3].tolist(), yx[:3].tolist())
+    if ts.degenerate:
+        ev['rel'] = 'equal'
+        if kind == 'transmission':
+            ev['dev'] = max(reldev(yk, yx), absdev(tk, tx))
+        else:
+            ev['dev'] = reldev(yk, yx)
+            # licensed: the cross-section emission branch zeroes transmittances once the optical depth is >= 10 at
+            # EVERY wavenumber of the evaluated grid; the k-table branch does not
+            col = np.sum(np.asarray(xm.contribution_list[0].sigma_xsec) *
+                         (np.asarray(xm.densityProfile) * np.asarray(xm.deltaz))[:, None], axis=0)
+            if col.min() >= 10.0 - 1e-6:
+                tt = np.asarray(xm.temperatureProfile, dtype=float)
+                ratio = max(fx.planck_b(w, tt.max()) / fx.planck_b(w, tt.min()) for w in gx)
+                ev['slack'] = int(min(CAP, math.ceil(nlayers * EXP_M10 * ratio * 1e12)))
+                log.licensed += 1
+        log.add(ev, cls, detail, vec)
+    elif kind == 'transmission' and tk.shape == tx.shape and tk.size:
+        ev['rel'] = 'jensen'
+        ev['lo'] = int(max(-CAP, min(CAP, math.floor(float(np.min(tk - tx)) * S_T))))
+        ev['tmin'] = int(max(-CAP, min(CAP, math.floor(float(tk.min()) * S_T))))
+        ev['tmax'] = int(max(-CAP, min(CAP, math.ceil(float(tk.max()) * S_T))))
+        log.add(ev, cls, detail + '; min(Tk - Tx) = %r' % float(np.min(tk - tx)), vec)
+    return dict(grid_k=gk, k=yk, tau_k=tk, grid_x=gx, x=yx, tau_x=tx)
 
 
 # ----------------------------------------------------------------------------
@@ -433,7 +603,25 @@ def scenarios(ctx, root, log, thorough=False):
            M('emission:tables', log, 'emission', ['window', 'kset', 'T'], dict(V, window=Wrun, T=Te), dict(dflt, T=1500.0)),
            M('transmission:two-grids', log, 'transmission', ['window', 'mode', 'mix2'], dict(V, window=Wfull), dict(dflt, kset=D)),
            M('emission:two-grids', log, 'emission', ['window', 'T', 'mix2'], dict(V, window=Wlin, T=Te), dict(dflt, kset=D, T=1500.0))]
+    # the evaluation configuration changes between evaluations (scheme x route x memory mode), tables of both containers,
+    # temperatures on a node / between nodes / above the table, pressures between nodes / on the last node / below
+    H = TableSet(root, 5, {'H2O': other}, [0.25, 0.25, 0.5], 0.0, container='hdf5')
+    Tc, Pc = [900.0, 1234.5, 2600.0], [3.7e4, 1e6, 1.0]
+    CP = [Cfg('linear', 'global'), Cfg('exp', 'api'), Cfg('exp', 'setter')]
+    CH = [Cfg('exp', 'ctor', 'stream'), Cfg('linear', 'setter'), Cfg('exp', 'global')]
+    CT = [Cfg('linear', 'api'), Cfg('exp', 'global'), Cfg('exp', 'ctor')]
+    CE = [Cfg('exp', 'setter'), Cfg('linear', 'global'), Cfg('exp', 'api', 'stream')]
+    sc += [TableScenario('table:config-pickle', log, A, 'H2O', [between(un, 5, 7)], Tc, Pc, configs=CP, vary=('config', 'T', 'P')),
+           TableScenario('table:config-hdf5', log, H, 'H2O', [between(other, 3, 7), run_of(other, 10, 7), FULL], Tc, [3.7e4],
+                         configs=CH, vary=('config', 'T', 'window')),
+           M('transmission:config', log, 'transmission', ['config', 'kset', 'T'], dict(V, config=CT, kset=[A, H], T=[1300.0, 900.0, 2600.0]),
+             dict(dflt, window=Wlin[0])),
+           M('emission:config', log, 'emission', ['config', 'mode', 'T'], dict(V, config=CE, T=Te), dict(dflt, kset=H, T=1500.0, window=Wlin[0]))]
     if thorough:
+        HD = TableSet(root, 6, {'H2O': un, 'CH4': coarse}, W4, 0.0, container='hdf5')
+        sc += [TableScenario('table:config-hdf5-P', log, HD, 'CH4', [between(coarse, 2, 6)], Tc, Pc, configs=CT, vary=('config', 'T', 'P')),
+               M('direct:config', log, 'direct', ['config', 'T', 'kset'], dict(V, config=CH, kset=[H, A], T=Te), dict(dflt, T=1500.0, window=Wlin[0])),
+               M('transmission:config-two', log, 'transmission', ['config', 'mix2', 'mode'], dict(V, config=CE), dict(dflt, kset=HD, window=FULL))]
         sc += [TableScenario('table:beyond', log, A, 'H2O', [linwin(350.0, 1050.0, 8), linwin(4250.0, 4950.0, 8), run_of(un, 0, 8)], Tn, Pn),
                TableScenario('table:second-molecule', log, D, 'CH4', [run_of(coarse, 2, 6), run_of(coarse, 11, 6), between(coarse, 2, 6)], Tn, Pn),
                M('direct:windows', log, 'direct', ['window', 'mode', 'T'], dict(V, window=Wrun, T=Te), dict(dflt, T=1500.0)),
@@ -447,8 +635,7 @@ def self_check(scs, log):
     the model's own clipping), same start / same end points, the full grid; the licensed clamp is the exception"""
     seen = set()
     for s in scs:
-        wins = s.dims[s.settings.index('window')] if isinstance(s, ModelScenario) and 'window' in s.settings else \
-            (s.dims[0] if isinstance(s, TableScenario) else [])
+        wins = s.dims[s.settings.index('window')] if 'window' in s.settings else []
         seen |= collisions(wins)
         if s.evals == 0:
             raise Machinery('history scenario %s was never evaluated' % s.name)
@@ -462,6 +649,19 @@ def self_check(scs, log):
     missing = {'size', 'first', 'ends', 'full'} - seen
     if missing:
         raise Machinery('window classes of KTableHistory not realised by the scenarios: %r' % sorted(missing))
+    # the configuration alphabet of KTableHistory inside the walks: both schemes, every route, both containers
+    cs, containers = [], set()
+    for s in scs:
+        if 'config' in s.settings:
+            cs += s.dims[s.settings.index('config')]
+            if isinstance(s, TableScenario):
+                containers.add(s.ts.container)
+            else:
+                containers |= {k.container for k in (s.dims[s.settings.index('kset')] if 'kset' in s.settings else [s.defaults['kset']])}
+    if cs:
+        lacking = (set(INTERPS) - {c.interp for c in cs}) | (set(ROUTES) - {c.route for c in cs}) | ({'pickle', 'hdf5'} - containers)
+        if lacking:
+            raise Machinery('configuration classes of KTableHistory not realised by the history scenarios: %r' % sorted(lacking))
     n = len(log.events)
     if n == 0 and not log.raised:
         raise Machinery('no twin event recorded')
